@@ -5,6 +5,8 @@ requests carrying generated Range headers, plus everything logged with a failure
 Oracle: vf.engines.refrange (RFC 9110 section 14 resolver + multipart/byteranges reader) applied to the
 header value and the known, position-identifying file content.
 
+In 8% of the cases the file behind ONE long-lived File object (a putChild leaf) is replaced on disk (grown,
+shrunk, same size with other bytes) before it is requested again; the oracle is the content at request time.
 One long-lived Site/root File serves every request of a shard (state left over between requests); 12% of the
 cases send a second range request over the same keep-alive connection; in 20% the transport pauses the
 channel from inside write() after 1..66000 response bytes (buffer full) and resumes two iterations later; files of 65535 / 65537 /
@@ -43,7 +45,8 @@ ASSUMPTIONS = ["trusted base: vf/engines/refrange.py (RFC 9110 14.1.2 resolution
 SHARDS = {"quick": 4, "thorough": 16}
 FLOORS = {"requests": 300, "checked_206_single": 60, "checked_206_multi": 40, "checked_416": 20,
           "checked_200_header_ignored": 30, "multipart_parts": 80, "head_requests": 20, "keepalive_second_requests": 200,
-          "transport_pauses_applied": 100, "client_aborts_mid_response": 20, "big_file_cases": 50, "buffer_edge_cases": 50}
+          "transport_pauses_applied": 100, "client_aborts_mid_response": 20, "big_file_cases": 50, "buffer_edge_cases": 50,
+          "leaf_requests": 300, "leaf_grow": 60, "leaf_shrink": 60, "leaf_same-size": 60}
 READY = True
 
 FIXED_SIZES = [0, 1, 2, 10, 255, 4096, 65536]
@@ -52,9 +55,9 @@ MAX_ITER = 400
 MAX_IDLE = 12  # iterations without a byte written before the response is declared stuck
 
 
-def content(size):
+def content(size, salt=0):
     """Position-identifying bytes: consecutive bytes differ by 131 (mod 251), so CR LF '-' '-' never occurs."""
-    return bytes((i * 131 + i // 251) % 251 for i in range(size))
+    return bytes((i * 131 + i // 251 + salt) % 251 for i in range(size))
 
 
 def sizes_for(ctx):
@@ -212,6 +215,9 @@ class Harness:
         self.pub = globalLogPublisher
         _attach_log_observer(self.log)
         self.site = None
+        self.leaf_site = None
+        self.leaf_content = b""
+        self.leaf_size = None
         self.flow_pauses = 0
         self.written_while_paused = 0
 
@@ -250,7 +256,22 @@ class Harness:
         out = self.exchange([(size, method, version, value)])
         return out["raws"][0], out["failures"], out["closed"], out["escaped"]
 
-    def exchange(self, reqs, pause_after=None, abort=False):
+    def replace_leaf(self, size, salt):
+        """Rewrite the file behind the long-lived leaf File object (putChild) with new content."""
+        path = os.path.join(self.dir, "leaf.bin")
+        data = content(size, salt)
+        with open(path, "wb") as f:
+            f.write(data)
+        if self.leaf_site is None:
+            from twisted.web import resource
+
+            root = resource.Resource()
+            root.putChild(b"leaf.bin", self.static.File(path))  # ONE File object serves every request for it
+            self.leaf_site = self.server.Site(root, reactor=self.Clock())
+        self.leaf_content = data
+        return data
+
+    def exchange(self, reqs, pause_after=None, abort=False, leaf=False):
         """Send the requests one after the other over ONE connection to the shard's long-lived Site (its
         root File object serves every request, as in a real server).  pause_after: once that many bytes of a
         response are written the transport pauses the channel from inside write() (buffer full, as TCP does);
@@ -260,7 +281,7 @@ class Harness:
 
         if self.site is None:
             self.site = self.server.Site(self.static.File(self.dir), reactor=self.Clock())
-        ch = self.site.buildProtocol(None)
+        ch = (self.leaf_site if leaf else self.site).buildProtocol(None)
         t = self.PausingTransport()
         ch.makeConnection(t)
         del self.log.events[:]
@@ -270,7 +291,7 @@ class Harness:
         it = 0
         try:
             for idx, (size, method, version, value) in enumerate(reqs):
-                name, _ = self.file_for(size)
+                name = "leaf.bin" if leaf else self.file_for(size)[0]
                 last = idx == len(reqs) - 1
                 req = method + b" /" + name.encode() + b" " + version + b"\r\nHost: h\r\n"
                 if value is not None:
@@ -549,6 +570,37 @@ def run_case(ctx, h, size, method, version, value, sample=False, pause_after=Non
                     "response_head": raw.partition(b"\r\n\r\n")[0][:300], "body_length": len(raw.partition(b"\r\n\r\n")[2])})
 
 
+def run_leaf(ctx, h, rng):
+    """The file behind ONE long-lived File object is replaced (grown, shrunk, same size with other bytes) and
+    requested again: the oracle is the content on disk at request time."""
+    old = h.leaf_size
+    kind = rng.choice(["grow", "shrink", "same-size"]) if old is not None else "grow"
+    if kind == "grow":
+        size = (old or 0) + rng.choice([1, 7, 100, 5000, 70000])
+        if size > 150000:
+            kind, size = "shrink", rng.choice([0, 1, 10, 300])
+    elif kind == "shrink":
+        size = rng.choice([0, 1, max(0, old - 1), old // 2, max(0, old - 66000)]) if old else 0
+        if size == old:
+            kind = "same-size"
+    else:
+        size = old
+    data = h.replace_leaf(size, rng.randrange(1, 250))
+    h.leaf_size = size
+    method = b"HEAD" if rng.random() < 0.08 else b"GET"
+    r = rng.random()
+    value = None if r < 0.15 else rng.choice([b"bytes=-1", b"bytes=-%d" % max(1, size // 2), b"bytes=0-", b"bytes=%d-" % max(0, size - 1),
+                                              b"bytes=0-%d" % max(0, size - 1), b"bytes=%d-%d" % (size // 2, size)]) if r < 0.5 else gen_range(rng, size)
+    out = h.exchange([(size, method, b"HTTP/1.1", value)], pause_after=rng.choice([None, None, 1, 60000]), leaf=True)
+    ctx.count("requests")
+    ctx.count("leaf_requests")
+    ctx.count("leaf_" + kind)
+    ctx.evaluated()
+    ctx.distinct(("leaf", old, size, method, value))
+    case = {"size": size, "method": method, "version": b"HTTP/1.1", "value": value, "content": data}
+    check(ctx, case, out["raws"][0] if out["raws"] else b"", out["failures"], out["closed"], out["escaped"])
+
+
 def run_abort(ctx, h, size, value, abort_at):
     """The client disappears in the middle of a response (transport buffer full, producer paused): the
     statement's 'never fails with an internal error'."""
@@ -607,6 +659,9 @@ def run(ctx):
                 size = rng.choice(BIG_SIZES)
                 value = gen_single_edge(rng, size)
                 ctx.count("big_file_cases")
+            if rng.random() < 0.08:
+                run_leaf(ctx, h, rng)
+                continue
             if rng.random() < 0.03:
                 run_abort(ctx, h, rng.choice(BIG_SIZES + [65536, 4096]) if rng.random() < 0.7 else size, value, rng.choice([1, 200, 60000, 66000]))
                 continue
